@@ -17,6 +17,7 @@ static void mk(unsigned char *b, int id) {
         if (profile == 1) b[j] = (id == 1) ? 0 : (unsigned char) (id * 37 + j * 3 + 1);
         else if (profile == 2) b[j] = (unsigned char) ((j == 0 ? id : 0));           /* differ in the first byte only, rest NUL */
         else if (profile == 3) b[j] = (unsigned char) ((j == OBJ - 1 ? id : 0xEE));   /* differ in the last byte only */
+        else if (profile == 4) b[j] = (unsigned char) (OBJ == 1 ? id : j == 0 ? 0x41 : j == 1 ? 0 : j == OBJ - 1 ? id : 0x42);   /* equal up to an embedded NUL */
         else b[j] = (unsigned char) (id * 37 + j * 3 + 1);
     }
 }
